@@ -52,10 +52,11 @@ func (f *factory) ToRESTMapper() (meta.RESTMapper, error) { return f.mapper, nil
 // part of the test mapper.
 func withCRDKind(base meta.RESTMapper) meta.RESTMapper {
 	gvk := kindByName("CustomResourceDefinition").GVK
-	ob := kindByResource("obars")
-	m := meta.NewDefaultRESTMapper([]schema.GroupVersion{gvk.GroupVersion(), ob.GVK.GroupVersion()})
+	b1, b2 := kindByResource("bazs"), kindByResource("obazs")
+	m := meta.NewDefaultRESTMapper([]schema.GroupVersion{gvk.GroupVersion(), b1.GVK.GroupVersion(), b2.GVK.GroupVersion()})
 	m.Add(gvk, meta.RESTScopeRoot)
-	m.AddSpecific(ob.GVK, ob.GVR(), ob.GVK.GroupVersion().WithResource("obar"), meta.RESTScopeNamespace)
+	m.AddSpecific(b1.GVK, b1.GVR(), b1.GVK.GroupVersion().WithResource("baz"), meta.RESTScopeNamespace)
+	m.AddSpecific(b2.GVK, b2.GVR(), b2.GVK.GroupVersion().WithResource("obaz"), meta.RESTScopeNamespace)
 	return meta.FirstHitRESTMapper{MultiRESTMapper: meta.MultiRESTMapper{base, m}}
 }
 
@@ -86,7 +87,13 @@ func NewSession() (*Session, error) {
 		s.tf.Cleanup()
 		return nil, fmt.Errorf("rest mapper: %w", err)
 	}
-	s.f = &factory{TestFactory: s.tf, dc: &dynClient{get: s.server}, mapper: withCRDKind(base)}
+	// the custom kind company.com Bar is known only while its CRD object exists (as of the
+	// mapper's last reset); the mapper is reset at the start of every run
+	crd := kindByName("CustomResourceDefinition").GVR()
+	s.f = &factory{TestFactory: s.tf, dc: &dynClient{get: s.server}, mapper: &dynMapper{RESTMapper: withCRDKind(base), present: func() bool {
+		srv := s.server()
+		return srv != nil && srv.st.get(crd, "", crdMeta.Name) != nil
+	}}}
 	return s, nil
 }
 
@@ -226,6 +233,7 @@ func Probe(st *Store, sc Scenario) RunResult {
 }
 
 func execRun(st *Store, sc Scenario, auto bool, sess *Session) (res RunResult) {
+	markRun(st, sc, auto)
 	clock := &Clock{}
 	bd := newBoard()
 	ctx, cancel := context.WithCancel(context.Background())
@@ -262,6 +270,9 @@ func execRun(st *Store, sc Scenario, auto bool, sess *Session) (res RunResult) {
 	srv.afterCancel = w.afterCancel
 	w.syncConsumer = cons.barrier
 	sess.bind(srv, w)
+	if m, ok := sess.f.mapper.(*dynMapper); ok {
+		m.Reset() // type knowledge is discovered afresh at the start of every run
+	}
 	invInfo := inventory.WrapInventoryInfoObj(InventoryObject(sc.Univ, nil, false))
 
 	var ch <-chan event.Event
